@@ -179,6 +179,25 @@ fn peel_groups(mut expr: &Expr) -> &Expr {
     expr
 }
 
+/// `expr` as an expression parser reads its tokens.
+///
+/// syn hands `name = -1` over as one negative literal when nothing follows it in the stream (see
+/// `FromMeta::from_expr`). Before another item, and inside a string, the same tokens are `-`
+/// applied to `1`, which is also how `syn::Expr`'s own parser reads them.
+pub(crate) fn negative_lit_as_unary(expr: &Expr) -> Expr {
+    if let Expr::Lit(syn::ExprLit { ref lit, .. }) = *expr {
+        if matches!(*lit, Lit::Int(_) | Lit::Float(_)) {
+            if let Ok(unary @ Expr::Unary(_)) =
+                syn::parse2::<Expr>(quote::ToTokens::to_token_stream(expr))
+            {
+                return unary;
+            }
+        }
+    }
+
+    expr.clone()
+}
+
 // FromMeta impls for std and syn types.
 
 impl FromMeta for () {
@@ -342,7 +361,7 @@ impl FromMeta for syn::Expr {
                 ..
             }) => Self::from_value(lit),
             Expr::Group(group) => Self::from_expr(&group.expr), // see FromMeta::from_expr
-            _ => Ok(expr.clone()),
+            _ => Ok(negative_lit_as_unary(expr)),
         }
     }
 
